@@ -6,7 +6,7 @@ from vt.core import R, rng_for, dn, meta_problem, quiet
 ID = 'C15'
 LEVEL = 'exploration'
 RULE = ('complete enumeration of state dimension {1,2,3} x snapshot count {1,2,3,5} x number of modes {1,2,3} x per-mode function '
-        'list (every window of length 1-3 over six family representatives) x data family (generic, repeated snapshots, integer) '
+        'list (every window of length 1-3 over six family representatives) x data family (generic, repeated snapshots, integer values, integer dtype); hocur additionally on EVERY zero pattern of the data matrix (2-3 modes) '
         'for basis_decomposition; function lists x add_one x single_core for coordinate_major / function_major; gram over all '
         'pairs of snapshot counts; hocur over ranks {1..m, m+2} (int and list) x repeats {1,2} x multiplier {1,2,10}. Oracle: '
         'explicit loop over multi-indices and snapshots. Non-trivial: more than one mode or more than one snapshot.')
@@ -37,7 +37,7 @@ def windows(lengths=(1, 2, 3), starts=range(NREP)):
 
 def cases(tier):
     q = tier == 'quick'
-    fams = ('gauss', 'repeat', 'int')
+    fams = ('gauss', 'repeat', 'int', 'intdtype')
     for d in (1, 2, 3):
         for m in ((1, 2, 3, 5) if q else (1, 2, 3, 5, 7)):
             for fam in fams:
@@ -69,11 +69,22 @@ def cases(tier):
                             for rep in (1, 2):
                                 for mult in (1, 2, 10):
                                     yield {'k': 'hocur', 'd': d, 'm': m, 'ws': [list(w) for w in ws], 'rk': rk, 'rlist': rlist, 'rep': rep, 'mult': mult}
+    # data with exact zeros (every zero pattern of the d x m data matrix, fixed non-zero values): the first basis functions
+    # vanish there, so the initial column candidates (a fixed prefix, widened by `multiplier`) decide whether the ranks are found
+    for d in (1, 2):
+        for m in (2, 3, 4):
+            for p in (2, 3):
+                for ws in itertools.product(*([windows((2,), (1, 3))] * p)):
+                    for mask in range(2 ** (d * m)):
+                        for mult in (2, 10):
+                            yield {'k': 'hocur', 'd': d, 'm': m, 'ws': [list(w) for w in ws], 'rk': m, 'rlist': False, 'rep': 1, 'mult': mult, 'mask': mask}
 
 
 def data(rng, d, m, fam):
     if fam == 'int':
         return rng.integers(-2, 3, size=(d, m)).astype(float)
+    if fam == 'intdtype':          # integer *dtype*: the transformed tensor is real-valued all the same
+        return rng.integers(-2, 3, size=(d, m))
     x = rng.uniform(-1.5, 1.5, size=(d, m))
     if fam == 'repeat' and m > 1:
         x[:, -1] = x[:, 0]
@@ -169,7 +180,14 @@ def run_case(case, seed):
             r.close('gram:value', G, P1.T @ P2, 1e-12)
     else:
         d, m = case['d'], case['m']
-        x = data(rng, d, m, 'gauss'); x0 = x.copy()
+        if 'mask' in case:
+            x = np.array([[0.3 + 0.37 * j - 0.21 * c + 0.05 * j * j for j in range(m)] for c in range(d)])
+            for kk, (c, j) in enumerate(itertools.product(range(d), range(m))):
+                if case['mask'] >> kk & 1:
+                    x[c, j] = 0.0
+        else:
+            x = data(rng, d, m, 'gauss')
+        x0 = x.copy()
         basis = basis_from(case['ws'], d)
         n = [len(b) for b in basis]
         p = len(basis)
@@ -179,6 +197,25 @@ def run_case(case, seed):
         r.nontrivial = True
         complete = rk >= m and case['mult'] >= max(n[1:] + [1])
         key = 'hocur' + (':complete-candidates' if complete else ':partial-candidates')
+        if 'mask' in case:
+            if not np.any(want):
+                r.skipped += 1          # zero tensor (D8)
+                return r
+            if p >= 3 and case['mask']:
+                # recorded limitation (known_findings.json): with >= 3 modes and exact zeros in the data the fixed prefix of
+                # initial column candidates can miss the column space; ranks are then under-estimated and never recover
+                try:
+                    with quiet():
+                        T = tdt.hocur(x, basis, ranks, repeats=1, multiplier=case['mult'], progress=False)
+                    ok = meta_problem(T) is None and np.linalg.norm(dn(T).reshape(want.shape) - want) <= 1e-8 * np.linalg.norm(want)
+                except Exception:
+                    ok = False
+                r.true('hocur:zeros-in-data:three-or-more-modes:column-candidates-miss-the-column-space', ok,
+                       'hocur does not reproduce the tensor although ranks >= true ranks (mask %d, multiplier %d)' % (case['mask'], case['mult']))
+                r.outcome = 'hocur-zeros-3modes-' + ('exact' if ok else 'inexact')
+                return r
+            key = 'hocur:zeros-in-data:two-modes' if case['mask'] else 'hocur:complete-candidates'
+            complete = True
         with r.op(key + ':call'):
             with quiet():
                 T = tdt.hocur(x, basis, ranks, repeats=case['rep'], multiplier=case['mult'], progress=False)
